@@ -36,7 +36,7 @@ func runC11(c *Ctx) {
 	for _, s := range c11SimplifyPool {
 		c.Case("simplify-pool", L(S("simplify"), S(s)), S(profile.VerifSimplifyFunc(s)), s != profile.VerifSimplifyFunc(s), "op:simplify")
 	}
-	for i := 0; i < c.Budget(400, 20000); i++ {
+	for i := 0; i < c.Budget(400, 5000); i++ {
 		s := ""
 		for j := r.Intn(6); j >= 0; j-- {
 			s += PickS(r, pieces)
@@ -104,7 +104,7 @@ func runC11(c *Ctx) {
 		}
 		return genStacks(r, kn)
 	}
-	for i := 0; i < c.Budget(700, 40000); i++ {
+	for i := 0; i < c.Budget(700, 10000); i++ {
 		drop := PickS(r, c11Drops)
 		var keep *string
 		if ks := PickS(r, c11Keeps); ks != "" {
@@ -112,10 +112,10 @@ func runC11(c *Ctx) {
 		}
 		prune("prune-rand", pick(), drop, keep)
 	}
-	for i := 0; i < c.Budget(500, 30000); i++ {
+	for i := 0; i < c.Budget(500, 8000); i++ {
 		pruneFrom("prunefrom-rand", pick(), PickS(r, c11Drops))
 	}
-	for i := 0; i < c.Budget(400, 20000); i++ {
+	for i := 0; i < c.Budget(400, 5000); i++ {
 		p := pick()
 		if !r.P(1, 8) {
 			p.DropFrames = PickS(r, c11Drops)
